@@ -921,4 +921,94 @@ theorem encodeBody_complete {r : Req} (h : Representable r) : ∃ b, encodeBody 
       obtain ⟨b, hb⟩ := writeLongString_complete (h x rfl)
       simp [encodeBody, writeBytesOpt, writeBytes, hb]
 
+/-! ### BATCH through `RawBatchValuesAdapter` refines the `Vec<SerializedValues>` BATCH -/
+
+theorem rowCells_addValues {vs : List RawVal} : ∀ {cnt : Nat} {cells : List UInt8}, rowCells vs = some cells →
+    cnt + vs.length ≤ 65535 → addValues cnt vs = .ok ⟨cells, cnt + vs.length⟩ := by
+  induction vs with
+  | nil => intro cnt cells h _; simp only [rowCells, Option.some.injEq] at h; subst h; simp [addValues]
+  | cons v vs ih =>
+    intro cnt cells h hc
+    simp only [rowCells] at h
+    simp only [List.length_cons] at hc
+    split at h
+    · cases h
+    · rename_i c hcell
+      split at h
+      · cases h
+      · rename_i r hr
+        cases h
+        have hne : ¬ cnt = 65535 := by omega
+        have := ih (cnt := cnt + 1) hr (by omega)
+        simp only [addValues, hne, if_false, hcell, this, List.length_cons]
+        congr 2
+        omega
+
+theorem batchLoopA_refines {n : Nat} {stmts : List (BatchStmt × Nat)} : ∀ {idx : Nat} {vals : List (List RawVal)}
+    {b : List UInt8}, batchLoopA n idx stmts vals = .ok b →
+    ∃ svs, mkSerValsList vals = .ok svs ∧ batchLoop n idx (stmts.map Prod.fst) svs = .ok b ∧
+      stmts.map Prod.snd = vals.map List.length := by
+  induction stmts with
+  | nil =>
+    intro idx vals b h
+    simp only [batchLoopA] at h
+    split at h
+    · rename_i he
+      cases h
+      have : vals = [] := by simpa using he
+      subst this
+      exact ⟨[], rfl, by simp [batchLoop], rfl⟩
+    · cases h
+  | cons sc ss ih =>
+    intro idx vals b h
+    obtain ⟨s, cols⟩ := sc
+    simp only [batchLoopA] at h
+    split at h
+    · cases h
+    · rename_i sb hsb
+      split at h
+      · cases h
+      · rename_i v vs
+        split at h
+        · cases h
+        · rename_i hcols
+          split at h
+          · cases h
+          · rename_i cells hcells
+            split at h
+            · cases h
+            · rename_i hlen
+              split at h
+              · cases h
+              · rename_i rest hrest
+                cases h
+                obtain ⟨svs, h1, h2, h3⟩ := ih hrest
+                have hsv : mkSerVals v = .ok ⟨cells, v.length⟩ := by
+                  have := rowCells_addValues (cnt := 0) hcells (by omega)
+                  simpa [mkSerVals] using this
+                refine ⟨⟨cells, v.length⟩ :: svs, by simp [mkSerValsList, hsv, h1], ?_, ?_⟩
+                · have hc : ¬ v.length > 65535 := hlen
+                  simp [batchLoop, hsb, hc, h2]
+                · have : cols = v.length := by simpa using hcols
+                  simp [this, h3]
+
+theorem encodeBatchA_refines {ty : BatchType} {stmts : List (BatchStmt × Nat)} {vals : List (List RawVal)}
+    {c : Consistency} {sc : Option SerialConsistency} {ts : Option Int64} {b : List UInt8}
+    (h : encodeBatchA ty stmts vals c sc ts = .ok b) :
+    encodeBody (.batch ty (stmts.map Prod.fst) vals c sc ts) = .ok b ∧ stmts.map Prod.snd = vals.map List.length := by
+  simp only [encodeBatchA] at h
+  split at h
+  · cases h
+  · rename_i hn
+    split at h
+    · cases h
+    · rename_i body hbody
+      cases h
+      obtain ⟨svs, h1, h2, h3⟩ := batchLoopA_refines hbody
+      refine ⟨?_, h3⟩
+      have hn' : ¬ (stmts.map Prod.fst).length > 65535 := by simpa using hn
+      have h2' : batchLoop (stmts.map Prod.fst).length 0 (stmts.map Prod.fst) svs = .ok body := by simpa using h2
+      simp only [encodeBody, h1, encodeBatch, hn', if_false, h2']
+      simp
+
 end ScyllaVerif.Proofs.Request
